@@ -456,7 +456,18 @@ func (x *Exec) step(op *Op) {
 		var del []klevdb.Message
 		var sz int64
 		var err error
-		if op.Multi {
+		stopped := false
+		if op.Multi && op.Var > 0 {
+			// the caller's backoff gives up at its op.Var-th call: what was deleted until then must be reported
+			n := 0
+			del, sz, err = klevdb.DeleteMulti(context.Background(), x.l, set, func(context.Context) error {
+				if n++; n >= op.Var {
+					return errStopBackoff
+				}
+				return nil
+			})
+			stopped = errors.Is(err, errStopBackoff)
+		} else if op.Multi {
 			del, sz, err = klevdb.DeleteMulti(context.Background(), x.l, set, noBackoff)
 		} else {
 			del, sz, err = x.l.Delete(set)
@@ -469,7 +480,11 @@ func (x *Exec) step(op *Op) {
 		if S == nil {
 			S = []int64{}
 		}
-		x.emit("delete", map[string]any{"S": S, "deleted": x.conv(del), "size": sz, "err": errClass(err), "errs": errStr(err),
+		ec := errClass(err)
+		if stopped {
+			ec = "Stopped"
+		}
+		x.emit("delete", map[string]any{"S": S, "deleted": x.conv(del), "size": sz, "err": ec, "errs": errStr(err),
 			"vers": vers, "multi": op.Multi, "j": x.obs.JudgeDelete})
 		if x.obs.Layout && !x.cur.RO {
 			x.emitVersions("delete", before, 0)
@@ -550,6 +565,8 @@ func errStr(err error) string {
 }
 
 func noBackoff(context.Context) error { return nil }
+
+var errStopBackoff = errors.New("verif: the caller's backoff gives up")
 
 // ---------------------------------------------------------------------------
 // observations
